@@ -1507,6 +1507,9 @@ type_t TypeChecker::getInlineIfCommonType(type_t t1, type_t t2) const
         return t2;
     else if (t1.is_clock() && !t2.is_clock() || !t1.is_clock() && t2.is_clock())
         return type_t{DOUBLE, {}, 0};
+    else if (t1.is_integral() && t2.is_integral() && t1.strip().get_kind() != t2.strip().get_kind())
+        // e.g. an int and a bool: each is assignable to the other, the common type must not depend on their order
+        return type_t::create_primitive(Constants::INT);
     else if (TypeChecker::areAssignmentCompatible(t1, t2))
         return t1;
     else if (TypeChecker::areAssignmentCompatible(t2, t1))
